@@ -181,7 +181,7 @@ Definition check_composed (l : list sexp) : sexp :=
             match as_list_of as_bytes fs, Vld.Decode.dec_schema vs, ExeA.ArgDecode.dec_schema es,
                   ExeA.ArgDecode.dec_raw co, ExeA.ArgDecode.dec_outcome w, dec_seen ob with
             | Some F, Some VS, Some ES, Some raw, Some W, Some obs =>
-                if negb (ExeA.ArgHyps.type_names_okb ES && Val.CoerceSpec.env_closed (ExeA.ArgData.s_inputs ES)) then v_bad "schema-hypotheses-do-not-hold"
+                if negb (ExeA.ArgHyps.type_names_okb ES && cost_schema_accepted ES) then v_bad "schema-hypotheses-do-not-hold"
                 else if negb (schemas_agree VS ES) then v_bad "schema-encodings-disagree"
                 else
                   let v := judge_composed kind VS F ES bs op raw W obs in
